@@ -1,5 +1,6 @@
 import Tally.Model.Counter
 import Tally.Spec.C01
+import TallyProofs.Props.C03
 /-!
 # C01 — counter increments are delivered exactly once (delta conservation)
 
@@ -337,5 +338,25 @@ example : run init [.inc 5, .swap 1, .inc 2, .swap 2, .deliver 2, .deliver 1]
 example : Spec.C01.conserved [2, 5] [5, 2] = true :=
   conserved_at_quiescence [.inc 5, .swap 1, .inc 2, .swap 2, .deliver 2, .deliver 1]
     { cell := 0, pending := [], delivered := [5, 2], incs := [2, 5] } (by decide) rfl rfl
+
+/-! ## per name and tags, through the scope tree (sequential histories)
+
+The theorems above are about one counter cell under every interleaving.  Lifted to the scope tree
+(`Model.Scope`: any derivation program, sanitizer, shard count, other metrics, subscopes being created,
+closed and collected around it): what the reporter receives under a counter's full name and tags adds
+up — modulo 2^64 — to what was incremented through its handle, once one more report has run; and a
+report with no use of the handle since the previous one delivers nothing under that identity.  Proved
+in `TallyProofs/Props/C03.lean` (section Conservation) together with the per-bucket statements for
+histograms; restated here under C01's name. -/
+
+open Tally.Scope Tally.KeyGen in
+theorem scope_counter_conservation {cfg : Cfg} {pfx0 sep0 : Bytes} {tags0 : TagMap} (st : St)
+    (hreach : Reach cfg pfx0 sep0 tags0 st) (hk : cfg.kind ≠ .none) (sid m : Nat) (s : ScopeS) (n : Bytes) (u : Int)
+    (hs : getScope st sid = some s) (hm : (m, Metric.counter n u) ∈ s.metrics) (ops : List Op)
+    (hsole : Cons.Always (Cons.SoleOwner "counter" (fqn st.sep s.pfx n) s.tags sid m) st (ops ++ [.report]))
+    (hlive : Cons.Live (Cons.runEv st (ops ++ [.report])).1 sid) :
+    wrap64 (C03.counterDelivered (fqn st.sep s.pfx n) s.tags (Cons.runEv st (ops ++ [.report])).2)
+        = wrap64 (u + Cons.incTotal m ops) :=
+  (C03.counter_conservation_reach st hreach hk sid m s n u hs hm ops hsole hlive).1
 
 end Tally.Props.C01
